@@ -16,7 +16,6 @@ import logging
 import time
 from functools import lru_cache
 from collections import defaultdict, namedtuple
-from itertools import groupby
 from jwt import JWT, jwk_from_pem
 
 from requests import HTTPError
@@ -662,13 +661,13 @@ class AggregatedWorkflowRuns(base.AbstractGitHostObject):
         }
         best_runs = {}
         for run in self._workflow_runs:
-            workflow_id = run['workflow_id']
-            conclusion = run['conclusion']
-            if (workflow_id not in best_runs or
-                    conclusion_ranking[conclusion] >
-                    conclusion_ranking[best_runs[workflow_id]['conclusion']]):
-                best_runs[workflow_id] = run
-        self._workflow_runs = list(best_runs.values())
+            key = (run['head_branch'], run['workflow_id'])
+            # Among equally ranked runs keep the most recent one, so that
+            # the result does not depend on the order of the API response.
+            rank = (conclusion_ranking[run['conclusion']], run.get('id', 0))
+            if key not in best_runs or rank > best_runs[key][0]:
+                best_runs[key] = (rank, run)
+        self._workflow_runs = [run for _, run in best_runs.values()]
 
     def branch_state(self, branch_workflow_runs):
         all_complete = all(
@@ -699,14 +698,15 @@ class AggregatedWorkflowRuns(base.AbstractGitHostObject):
     @property
     def state(self):
         self.remove_unwanted_workflows()
-        res = [list(v) for i, v in groupby(
-            self._workflow_runs,
-            lambda elem: elem['head_branch']
-        )]
+        # The runs of a branch are not necessarily contiguous in the API
+        # response: group them explicitly.
+        res = defaultdict(list)
+        for run in self._workflow_runs:
+            res[run['head_branch']].append(run)
 
         status = [
             self.branch_state(branch_check_suite)
-            for branch_check_suite in res
+            for branch_check_suite in res.values()
         ]
         if 'SUCCESSFUL' in status:
             return 'SUCCESSFUL'
